@@ -8,16 +8,19 @@ from .ir import walk_stmts, walk_expr, all_exprs, show
 from .paths import path_of
 
 META = {
-    'explanation': 'E-GNF linear-form queries on forEpochSeconds/toEpochSeconds/for*Unix*/to*Unix* of LocalDate, LocalDateTime, '
-                   'OffsetDateTime, ZonedDateTime and on convertTo*/compareTo: coefficients of the instant, of the offset and of '
-                   'the Unix-epoch constant are paired (+1/-1 on the same constant, which folds to 946684800 = 86400 * 10957).',
-    'decided': 'offset is added when building fields and subtracted when converting back; Unix variants use one constant with '
-               'opposite signs; convertToTimeZone/convertToTimeOffset pass the unmodified epoch seconds; compareTo is the sign '
-               'of the difference of the two instants on every path, obtained by comparing (never by subtracting) them; '
-               'ZonedDateTime::forEpochSeconds uses one instant for both look-up and fields; '
-               'the two floor-division twins are the same guarded quotient and pair with days*86400 + seconds',
-    'not_decided': 'that the date formulas invert each other for all 2^32 values (numeric round trip)',
-    'assumptions': ['clang 14 parser', 'value-preserving casts are dropped by the canonicaliser (int32 arithmetic, no overflow analysis)'],
+    'explanation': 'E-SEQ, typed (acv/rules_C05b.py): LocalDate, LocalTime, LocalDateTime, TimeOffset, OffsetDateTime and ZonedDateTime are '
+                   'interpreted through their own factories, accessors and converters; a TimeZone is abstracted at the one member the '
+                   'date-time classes ask it, getUtcOffset(epochSeconds), by two model zones (one with a DST period, one fixed).  Instants '
+                   'around both transitions, around the epoch, at day boundaries on both sides of it and two billion seconds either way; ten '
+                   'fixed offsets (thorough: every quarter hour of +-16 h).  The two forEpochSeconds factories on instants around day boundaries '
+                   '(floor quotient).',
+    'decided': 'on every instant / offset / pair of the family: forEpochSeconds(e, x).toEpochSeconds() == e and the fields are the calendar '
+               'reading of e + offset; the Unix variants (for / to, seconds and days, all classes) are the same values at e + 946684800; '
+               'convertToTimeOffset / convertToTimeZone keep the instant; compareTo is the sign of the difference of the instants, also more '
+               'than 2^31 s apart and for two date-times of one zone inside the repeated hour; ZonedDateTime::forEpochSeconds reads the zone at '
+               'the instant it converts',
+    'not_decided': 'instants and offsets outside the family; real zone data (the model zones stand for TimeZone at its interface)',
+    'assumptions': ['clang 14 parser', 'TimeZone is used by the date-time classes only through getUtcOffset() / isError() / operator=='],
 }
 
 UNIX = 946684800
